@@ -19,7 +19,7 @@ ASSUMPTIONS = ['zone-less date-times use whole-hour offsets -12..+14 (a zone wit
                'Bin values are not generated under the non-official labels 1.0/2.5 (which Bin spelling a 2.5 document uses is undefined)']
 FEATURES = {}
 EXHAUSTIVE_CLAIM = False
-ALIASES = {'2.0': ['2.0', '2', '1.0', '2.0'], '3.0': ['3.0', '3', '3.0.0', '4.0', '2.5', '2.0.1']}
+ALIASES = {'2.0': ['2.0', '2', '1.0', '2.0'], '3.0': ['3.0', '3', '3.0.0', '4.0', '2.5', '2.0.1', '3.0 "rc\\1"']}
 
 
 def relabel(m, pick):
